@@ -50,8 +50,18 @@ def trace_part(chk, tier):
         els = [i + 1 for i, kk in enumerate(d['kind']) if kk == 'e']
         targets = [0] + ([rng.choice(els)] if len(els) > 1 else [])
         jobs.append(('d%d' % k, d, asts, targets, None))
-    lines = trace.record_select(jobs)
+    trace.SPELL_SEED = common.SEED          # the selector texts are random respellings of the generated ASTs
+    try:
+        lines = trace.record_select(jobs)
+    finally:
+        trace.SPELL_SEED = None
     trace.validate(chk, lines, 'Trace_Select', 'trace-select')
+    # the same events against the implementation-shaped pipeline: text -> tokens -> AST -> IR -> right-to-left matcher, all in TLA+
+    from harness import statedefs, tlc
+    import os
+    if not os.path.basename(tlc.SPEC_DIR).startswith('verif_spec_'):
+        statedefs.use_tree_under_test()
+    trace.validate(chk, lines if tier == 'thorough' else lines[::3], 'Trace_Pipe', 'trace-pipe', batch=400)
     import json
     e = json.loads(lines[0])
     chk.sample({'trace_event': {'css': e['css'], 'target': e['target'], 'res': e['res'], 'nodes': len(e['doc']['parent'])}}, cap=13)
